@@ -32,8 +32,13 @@
 (*                                                                         *)
 (*  cmd = [kind : "api" (Package::run_tests called by a host)             *)
 (*                | "check" | "test" | "run"   (roto <kind> <path> [fn]), *)
-(*         explicit : a function name is given on the command line,       *)
-(*         fn : that name]                                                 *)
+(*         explicit : an entry name is given on the command line,         *)
+(*         mod, fn : that name, written <mod segments>.<fn> : the module  *)
+(*                   path relative to the package root (<<>> for a bare   *)
+(*                   name) and the function name.  The path designates the *)
+(*                   function fn of module pkg.<mod>, as a path does in a  *)
+(*                   script of the root module; the path is never         *)
+(*                   shortened and no other module is searched]           *)
 (*                                                                         *)
 (* One action per step of the code: Compile (parse + type check),         *)
 (* RunTest(i) (TestCase::run inside run_tests), Finish (the aggregate     *)
@@ -147,9 +152,10 @@ Sorted(S) == IF S = {} THEN <<>> ELSE <<First(S)>> \o Sorted(S \ {First(S)})
 
 (* the entry point of `run`: a function of the root module, `main` unless named *)
 EntryName == IF cmd.explicit THEN cmd.fn ELSE MAIN
-EntryOK   == /\ Resolves(Root, EntryName)
-             /\ Funcs[Callee(Root, EntryName)].sig = "unit"        \* must be fn()
-EntryMark == FnMark(Callee(Root, EntryName))
+EntryMod  == IF cmd.explicit THEN cmd.mod ELSE Root
+EntryOK   == /\ Resolves(EntryMod, EntryName)                      \* no such module => no such function
+             /\ Funcs[Callee(EntryMod, EntryName)].sig = "unit"    \* must be fn()
+EntryMark == FnMark(Callee(EntryMod, EntryName))
 
 -----------------------------------------------------------------------------
 Init(p, c) ==
@@ -255,6 +261,13 @@ NotShadowed ==
 BodyErrorRejected ==
   (phase \in {"compiled", "done"}) => \A i \in TIdx : BodyCompiles(Tests[i].body)
 
+(* `run` executes the designated function and no other *)
+RightEntry ==
+  (phase = "done" /\ cmd.kind = "run" /\ exit = "success") =>
+     /\ log = <<EntryMark>>
+     /\ Funcs[Callee(EntryMod, EntryName)].mod = EntryMod
+     /\ Funcs[Callee(EntryMod, EntryName)].name = EntryName
+
 (* the CLI table *)
 SomeReject == \E i \in TIdx : Tests[i].out = "reject"
 ExitTable ==
@@ -269,5 +282,5 @@ EntryOnce ==
   /\ (Ended /\ cmd.kind = "run") => entryRuns = (IF exit = "success" THEN 1 ELSE 0)
 
 Inv == TypeOK /\ ExactlyOnce /\ AtMostOnce /\ InOrder /\ VerdictIff /\ NoCallToTest
-       /\ NotShadowed /\ BodyErrorRejected /\ ExitTable /\ EntryOnce
+       /\ NotShadowed /\ BodyErrorRejected /\ RightEntry /\ ExitTable /\ EntryOnce
 =============================================================================
